@@ -219,7 +219,10 @@ claim("C09",
            "max_depth/min_samples_leaf.",
       note="Reading the extracted text as Python assumes mathematical double / integer arithmetic and successful allocation; every index is checked "
            "although the C code disables bounds checks. 'mselin' (LAPACK through raw pointers) and the scikit-learn tree builder are bounded only; "
-           "_fit_reglin is assumed on the Python side, predict_leaves is proved (position of the row's own leaf in leaves_index_). Known finding: the fast criterion's prefix sums are in the init order, which the "
+           "_fit_reglin is proved (leaves_index_ = all leaves in increasing order; for every leaf position one criterion on exactly the training rows of that "
+           "position with their targets and weights, its node_beta stored in betas_[i,:]) and predict_leaves is proved (position of the row's own leaf); "
+           "with _predict_reglin this chains to: the 'mselin' prediction of a row is [x,1] . node_beta of the criterion built on the training rows sharing its leaf - "
+           "node_beta itself (LAPACK) is assumed to be the least-squares fit and checked by the bounded stand-in. Known finding: the fast criterion's prefix sums are in the init order, which the "
            "splitter then re-sorts (the proved invariant is relative to the order given to init).",
       technique="deductive verification of mechanically extracted Cython text (loop invariants over ghost range sums, Lean-checked lemma schemas, z3) and of "
                 "the Python side; 'mselin' by bounded enumeration")
